@@ -340,3 +340,57 @@ def probe_encase(S, struct_names, uniform_structs=()):
                 body += '            v.push(json!({"ev": "rt.encase", "struct": %s, "writer": "%s", "k": %d, "len": bytes.len() as i64, "positions": pats.iter().map(|p| find(&bytes, p)).collect::<Vec<_>>()}));\n        }\n' % (rust_str(name), wk, -1 if kk is None else kk)
             body += "    }\n"
     return HEAD + body + TAIL
+
+
+# ------------------------------------------------------------------ C02: wgpu's own validation on a real (no-op HAL) device
+def probe_wgpu_validate(out):
+    body = "    use crate::realdev::{noop_device, scoped};\n"
+    body += "    let dev_all = noop_device(wgpu::Features::all());\n"
+    body += "    let dev_std = noop_device(wgpu::Features::all() - wgpu::Features::TEXTURE_ADAPTER_SPECIFIC_FORMAT_FEATURES);\n"
+    for g in out.get("groups", []):
+        no = g["no"]
+        body += '    v.push(json!({"ev": "wgpu.result", "call": "create_bind_group_layout", "group": "%s", "err": scoped(&dev_all, || m::bind_groups::BindGroup%s::get_bind_group_layout(&dev_all))}));\n' % (no, no)
+    body += '    v.push(json!({"ev": "wgpu.result", "call": "create_pipeline_layout", "err": scoped(&dev_all, || m::create_pipeline_layout(&dev_all))}));\n'
+    for c in out.get("compute", []):
+        body += '    v.push(json!({"ev": "wgpu.result", "call": "create_compute_pipeline", "fn": %s, "err": scoped(&dev_all, || m::compute::%s(&dev_all))}));\n' % (rust_str(c["fn"]), c["fn"])
+    fns = out.get("fns", {})
+    ventries = [k[3:] for k, f in fns.items() if k.startswith("fn ") and k.endswith("_entry") and f.get("ret", "").startswith("VertexEntry")]
+    fentries = [k[3:] for k, f in fns.items() if k.startswith("fn ") and k.endswith("_entry") and f.get("ret", "").startswith("FragmentEntry")]
+    ovx = default_override_expr(out)
+    if ovx:
+        body += "    let overrides = %s;\n" % ovx
+
+    def call(name):
+        f = fns["fn " + name]
+        args = []
+        k = 0
+        for p in f.get("params", []):
+            ty = p["ty"].replace(" ", "")
+            if "VertexStepMode" in ty:
+                args.append("wgpu::VertexStepMode::%s" % ("Vertex" if k % 2 == 0 else "Instance"))
+                k += 1
+            elif "OverrideConstants" in ty:
+                args.append("&overrides")
+            elif "ColorTargetState" in ty:
+                args.append("std::array::from_fn(|_| Some(wgpu::ColorTargetState { format: wgpu::TextureFormat::Rgba8Unorm, blend: None, write_mask: wgpu::ColorWrites::ALL }))")
+            else:
+                args.append("Default::default()")
+        return "m::%s(%s)" % (name, ", ".join(args))
+    if ventries:
+        body += "    let mut module_o = None;\n    let mut layout_o = None;\n"
+        body += "    let e0 = scoped(&dev_std, || { module_o = Some(m::create_shader_module(&dev_std)); layout_o = Some(m::create_pipeline_layout(&dev_std)); });\n"
+        body += '    v.push(json!({"ev": "wgpu.result", "call": "create_pipeline_layout", "device": "std", "err": e0}));\n'
+        body += "    if e0.is_some() { return v; }\n    let module = module_o.unwrap();\n    let layout = layout_o.unwrap();\n"
+        body += "    let depth = wgpu::DepthStencilState { format: wgpu::TextureFormat::Depth32Float, depth_write_enabled: true, depth_compare: wgpu::CompareFunction::Less, stencil: Default::default(), bias: Default::default() };\n"
+    for ve in ventries:
+        body += "    {\n        let ve = %s;\n" % call(ve)
+        body += ('        let err = scoped(&dev_std, || dev_std.create_render_pipeline(&wgpu::RenderPipelineDescriptor { label: None, layout: Some(&layout), vertex: m::vertex_state(&module, &ve), '
+                 'fragment: None, primitive: Default::default(), depth_stencil: Some(depth.clone()), multisample: Default::default(), multiview: None, cache: None }));\n')
+        body += '        v.push(json!({"ev": "wgpu.result", "call": "create_render_pipeline", "vertex": %s, "fragment": serde_json::Value::Null, "err": err}));\n' % rust_str(ve)
+        for fe in fentries:
+            body += "        {\n            let fe = %s;\n" % call(fe)
+            body += ('            let err = scoped(&dev_std, || dev_std.create_render_pipeline(&wgpu::RenderPipelineDescriptor { label: None, layout: Some(&layout), vertex: m::vertex_state(&module, &ve), '
+                     'fragment: Some(m::fragment_state(&module, &fe)), primitive: Default::default(), depth_stencil: None, multisample: Default::default(), multiview: None, cache: None }));\n')
+            body += '            v.push(json!({"ev": "wgpu.result", "call": "create_render_pipeline", "vertex": %s, "fragment": %s, "err": err}));\n        }\n' % (rust_str(ve), rust_str(fe))
+        body += "    }\n"
+    return HEAD + body + TAIL
